@@ -54,6 +54,16 @@ def run(ctx):
     for k, h in enumerate(hs):
         # the copy slot is handle 2 in this configuration
         jobs.append((len(jobs) + 1, h, {"1": SOURCES1[k % len(SOURCES1)]}, "twin"))
+    # directed: the shortest histories on which the mechanism AS OBSERVED violates the model's invariants
+    # (today only the cached GeoDataFrame handed out itself) are replayed in every run
+    directed = []
+    for inv in ("Refines", "HandleSeesOwnVersion", "NoSharedDatasets", "ExportsDetached"):
+        h = gc.counterexample_history(ctx, "MechObserved", ALIAS_FAMS, inv)
+        if h is not None:
+            directed.append((inv, h))
+            for src in SOURCES1[:3]:
+                jobs.append((len(jobs) + 1, h, {"1": src}, "twin"))
+    ctx.note("observed_mechanism_counterexamples", [{"invariant": i, "history": gc.compact(h)} for i, h in directed])
     t2 = time.time()
     traces = gc.replay_all(jobs)
     t3 = time.time()
